@@ -1,10 +1,10 @@
 package zzverif
 
 import (
-	mrserver "github.com/alicebob/miniredis/v2/server"
-	"fmt"
 	"context"
 	"errors"
+	"fmt"
+	mrserver "github.com/alicebob/miniredis/v2/server"
 	"strconv"
 	"strings"
 	"sync"
